@@ -94,6 +94,9 @@ def str_pregex_params(model):
 
 
 def run(ctx, model):
+    from . import signatures as _sig
+    _n_sig = _sig.check(ctx, model, "R-SIGNATURE", lambda k: k.startswith(('pregex.core.operators:', 'pregex.core.pre:Pregex.__init__')))
+    ctx.floor("R-SIGNATURE", _n_sig, 1, "public entry points")
     ctx.explanation = __doc__.strip().replace("\n", " ")
     ctx.assumptions += [
         "not decided: that the type tag __infer_type assigns to an escaped literal is right for every character sequence, hence that a "
@@ -278,6 +281,20 @@ def run(ctx, model):
             ctx.violation("R-CTX", f.relpath, f.short, f"parameter {pname}: literal refused",
                           "a plain (non-empty) string operand is refused although a literal is always a valid, fixed-width pattern",
                           f.node.lineno, inp=inp, detail=f"{refused}")
+        if s in ("a.b", "\\*") and position in (0, 2):
+            # the same characters handed over as an instance of a user subclass of str (plain subclass; a str-valued
+            # enum member whose str() / format() show a label): it IS a plain string and must contribute the same text
+            from ..witness import SubStr, LabelStr
+            for kind_, val in (("str subclass", SubStr(s)), ("str subclass with its own __str__/__format__", LabelStr(s)),
+                               ("str subclass with its own __str__/__format__, nothing to escape", LabelStr("kb"))):
+                ref = res_s if val == s else _outcomes(model, _caller(model, f, pname, var, position, "kb"))
+                got = _outcomes(model, _caller(model, f, pname, var, position, val))
+                ctx.instance("R-CTX", key=(inp, kind_))
+                if got != ref:
+                    ctx.violation("R-CTX", f.relpath, f.short, f"parameter {pname}: instance of a str subclass",
+                                  "a string handed over as an instance of a subclass of str does not contribute what the plain string "
+                                  "with the same characters contributes", f.node.lineno, inp=f"{inp} as {kind_}",
+                                  detail=f"plain str: {sorted(ref)[:2]}; subclass instance: {sorted(got)[:2]}")
         bad = res_s - res_p
         if bad:
             raw = [x for x in bad if s in x and E not in x]
